@@ -1111,9 +1111,20 @@ def s_strip(interp, s, args, kwargs, node):
         trust(interp, 'A-STRIP: s.strip(chars) is a substring of s that is empty exactly when every '
                       'character of s is in chars')
         st = str_term(s)
-        r = uf('strip_' + ''.join(f'{ord(c):02x}' for c in chars), S, S)(st)
-        interp.ex.add_axiom(z3.And((z3.Length(r) == 0) == z3.InRe(st, z3.Star(charset_re(chars))),
-                                   z3.Length(r) <= z3.Length(st), z3.Contains(st, r)))
+        key = ''.join(f'{ord(c):02x}' for c in chars)
+        r = uf('strip_' + key, S, S)(st)
+        lead = uf('strip_lead_' + key, S, S)(st)
+        trail = uf('strip_trail_' + key, S, S)(st)
+        cs = charset_re(chars)
+        first = z3.SubString(r, 0, 1)
+        last = z3.SubString(r, z3.Length(r) - 1, 1)
+        interp.ex.add_axiom(z3.And(
+            (z3.Length(r) == 0) == z3.InRe(st, z3.Star(cs)),
+            st == z3.Concat(lead, r, trail),
+            z3.InRe(lead, z3.Star(cs)), z3.InRe(trail, z3.Star(cs)),
+            z3.Implies(z3.Length(r) > 0, z3.And(z3.Not(z3.InRe(first, cs)), z3.Not(z3.InRe(last, cs)))),
+            z3.Implies(z3.And(z3.Not(z3.InRe(z3.SubString(st, 0, 1), cs)),
+                              z3.Not(z3.InRe(z3.SubString(st, z3.Length(st) - 1, 1), cs))), r == st)))
         return mk_str(r)
     raise Unsupported('str.strip symbolic', node)
 
